@@ -1,8 +1,10 @@
 #!/bin/sh
-# Runs the quick tier of every claimed check on the current /repo tree (refreshes evidence/*.json).
+# Runs the quick tier (or the tier given as $1) of every claimed check on the current /repo tree (refreshes evidence/*.json).
+# IDS="C04 C07" restricts the run to those properties, in that order.
 cd "$(dirname "$0")"
 rc=0
-for id in $(python3 -c "import json;print(' '.join(c['property_id'] for c in json.load(open('MANIFEST.json'))['checks']))"); do
+ids=${IDS:-$(python3 -c "import json;print(' '.join(c['property_id'] for c in json.load(open('MANIFEST.json'))['checks']))")}
+for id in $ids; do
   ./check "$id" --tier "${1:-quick}" | tail -3 || rc=1
 done
 exit $rc
